@@ -324,6 +324,20 @@ def run(ctx):
     rule_G(ctx)
     rule_P1(ctx)
     rule_C1(ctx)
+    # the Gibbs weights are log_p_one of *edited copies*: they are the target's values only if every edit of
+    # a tree refreshes the cached likelihoods it invalidates (same rule objects as C06.M1 / M2)
+    from ..effects import TreeFx
+    from ..formula import imported
+    from . import C06
+
+    ctx._own_rules = set(ctx.rule_min)
+    fx = TreeFx(ctx.prog)
+    imported(ctx, C06.rule_M1, fx)
+    try:
+        summary = C06.payload_summary(ctx)
+        imported(ctx, C06.rule_M2, fx, summary)
+    except AnalysisError as e:
+        ctx.note("imported premise C06.M2 not analysable on this tree: %s" % str(e)[:200])
 
 
 _G = "phyclone/mcmc/gibbs_mh.py"
